@@ -214,7 +214,7 @@ int main(int argc, char **argv) {
     mc_init(argc, argv);
     int fullmax = mc_thorough ? 7 : 5;
     g_sum = mc_shalloc(MC_MAXW * 16 * 2 * sizeof(double));
-    snprintf(mc_bounds, sizeof mc_bounds, "FULL(0..%d) complete with area sums; FINE level 0 families + EDGE family (cells on %d points along each of the 30 icosahedron edges, closed under one neighbour step) at resolutions %d..15; a scrambled list interleaving pentagons, edge-crossing cells and family cells of all 16 resolutions", fullmax, mc_thorough ? 4000 : 600, fullmax + 1);
+    snprintf(mc_bounds, sizeof mc_bounds, "FULL(0..%d) complete with area sums; FINE level 0 families + EDGE family (cells on %d points along each of the 30 icosahedron edges, closed under one neighbour step) and MERID (2 rings around the cells where the meridian through each face centre leaves its face) at resolutions %d..15; a scrambled list interleaving pentagons, edge-crossing cells and family cells of all 16 resolutions", fullmax, mc_thorough ? 4000 : 600, fullmax + 1);
     for (g_res = 0; g_res <= fullmax; g_res++) {
         char nm[64];
         snprintf(nm, sizeof nm, "FULL(%d)", g_res);
@@ -224,6 +224,7 @@ int main(int argc, char **argv) {
     for (int r = fullmax + 1; r <= 15; r++) {
         dom_fine_raw(r, 0, &g_fine);
         dom_edge(r, mc_thorough ? 4000 : 600, 1, &g_fine);
+        dom_merid(r, 2, &g_fine);
     }
     uv_sortuniq(&g_fine);
     mc_phase("fine families", ph_fine, NULL);
